@@ -92,6 +92,8 @@ def gen_case(rng, tier):
             for key in dct:
                 dct[key] = sorted(set(dct[key]))
         case['cyclic'] = kind
+    if not cyc and len(names) >= 2 and rng.random() < 0.1:
+        nested_cyclic(rng, case)
     case['outcomes'] = H.gen_outcomes(rng, case, KINDS)
     case['workers'] = rng.choice([1, 2, 2, 3, 4, 8, 16])
     case['init'] = {}
@@ -100,6 +102,50 @@ def gen_case(rng, tier):
             case['init'][name] = rng.choice(['DONE', 'DONE', 'FAILED',
                                              'SKIPPED'])
     return case
+
+
+def nested_cyclic(rng, case):
+    '''Turn `case` into a nested graph (sub-graphs used as nodes) that is
+    cyclic at the level of the sub-graphs; some of the sub-graphs are empty.
+    The call must still come back (return or raise).'''
+    names = sorted(case['tasks'], key=lambda n: int(n[1:]))
+    cut = rng.randint(1, len(names) - 1)
+    groups = [names[:cut], names[cut:]]
+    gof = {n: i for i, grp in enumerate(groups) for n in grp}
+    case['hard'] = {n: [d for d in deps if gof[d] == gof[n]]
+                    for n, deps in case['hard'].items()}
+    case['soft'] = {}
+    kind = rng.choice(['empty-self', 'empty-two', 'empty-shared',
+                       'empty-in-cycle', 'groups-two', 'group-self'])
+    ghard, gmembers, order = {}, {}, [0, 1]
+    if kind == 'empty-self':
+        groups.append([])
+        ghard = {2: [2], 1: [rng.choice([0, 2])]}
+        order = [0, 1, 2]
+    elif kind == 'empty-two':
+        groups += [[], []]
+        ghard = {2: [3], 3: [2], 1: [0]}
+        order = [0, 1, 2, 3]
+    elif kind == 'empty-shared':
+        # the same empty sub-graph inside two sub-graphs, one of which
+        # depends on the other
+        groups.append([])
+        gmembers = {0: [2], 1: [2]}
+        ghard = {1: [0]}
+    elif kind == 'empty-in-cycle':
+        groups.append([])
+        ghard = {0: [2], 2: [1], 1: [0]}
+        order = [0, 1, 2]
+    elif kind == 'groups-two':
+        ghard = {0: [1], 1: [0]}
+    else:
+        ghard = {0: [0]}
+    rng.shuffle(order)
+    case['groups'] = groups
+    case['ghard'] = {str(k): v for k, v in ghard.items()}
+    case['gmembers'] = {str(k): v for k, v in gmembers.items()}
+    case['gorder'] = order
+    case['cyclic'] = 'nested-' + kind
 
 
 def case_class(case):
@@ -128,6 +174,13 @@ def judge(res, case, rec, extra):
     where = dict(case=case, **extra)
     tag = tag_of(case)
     rec.count('outcome.' + str(res.outcome))
+    if str(case.get('cyclic')).startswith('nested-'):
+        rec.count('nested_cyclic_runs')
+    if res.outcome == 'build-budget':
+        rec.violation(f'scheduler-construction-does-not-terminate-{tag}',
+                      f'building the Scheduler for the graph '
+                      f'({case.get("cyclic")}) made {res.error}', where)
+        return
     if res.outcome == 'deadlock':
         rec.violation(f'deadlock-{tag}', 'no runnable thread while some are '
                       f'unfinished: {res.deadlock}; worker deaths '
